@@ -34,6 +34,14 @@ contract(Q + 'CentralController.get_configuration', 'C16', self_class='CentralCo
          modifies=[],
          ensures={
              'one_selection_per_controller': f'len(result.selections) == len({_C})',
+             'every_controller_recorded': 'implies(' + _INR + ', ' +
+                 f'forall(lambda q: exists(lambda p: result.selections[p].controller == {_C}[q].controller_name and '
+                 f'result.selections[p].selection == {_C}[q].specification_names[{_C}[q].current_index], '
+                 f'0, len(result.selections)), 0, len({_C})))',
+             'every_selection_from_a_controller': 'implies(' + _INR + ', ' +
+                 f'forall(lambda p: exists(lambda q: result.selections[p].controller == {_C}[q].controller_name and '
+                 f'result.selections[p].selection == {_C}[q].specification_names[{_C}[q].current_index], '
+                 f'0, len({_C})), 0, len(result.selections)))',
          },
          replay=_REPLAY)
 
